@@ -621,9 +621,10 @@ func (up *SyncClient) syncNode(parent, id string) error {
 		}
 	}
 
-	if nodeDeleted {
+	if nodeDeleted && nodeLocal.ID == up.rootLocal.ID {
 		nodeUp = nodeUps[0]
-		// restore a node on the upstream
+		// restore this device on the upstream (deletions of nodes below it
+		// are synchronized like any other edge point: the newer one wins)
 		// update the local tombstone timestamp so it is newer than the remote tombstone timestamp
 		log.Printf("Sync: undeleting remote node: %v:%v\n", nodeUp.Parent, nodeUp.ID)
 		pTS := data.Point{Time: time.Now(), Type: data.PointTypeTombstone, Value: 0}
@@ -779,13 +780,15 @@ func (up *SyncClient) syncNode(parent, id string) error {
 	}
 
 	// sync child nodes
-	children, err := GetNodes(up.ncLocal, nodeLocal.ID, "all", "", false)
+	// deleted children are compared as well, otherwise a deletion made on one
+	// side is never seen by the other
+	children, err := GetNodes(up.ncLocal, nodeLocal.ID, "all", "", true)
 	if err != nil {
 		return fmt.Errorf("Error getting local node children: %v", err)
 	}
 
 	// FIXME optimization we get the edges here and not the full child node
-	upChildren, err := GetNodes(up.ncRemote, nodeUp.ID, "all", "", false)
+	upChildren, err := GetNodes(up.ncRemote, nodeUp.ID, "all", "", true)
 	if err != nil {
 		return fmt.Errorf("Error getting upstream node children: %v", err)
 	}
